@@ -281,7 +281,11 @@ def oracle(c, out):
             hdr = tok_bytes(out)
             frames = ref_ws_frames(hdr + bytes(plen))
             want = (bool(fin), (r1 << 2) | (r2 << 1) | r3, opc, bool(masked))
-            return (len(frames) == 1 and frames[0][:4] == want and len(frames[0][4]) == plen, "ws header fields %r != %r" % (frames[0][:4], want))
+            if len(frames) != 1:
+                return (False, "ws header for a %d-byte payload followed by the payload parses as %d frames" % (plen, len(frames)))
+            if len(frames[0][4]) != plen:
+                return (False, "ws header declares payload length %d for a %d-byte payload" % (len(frames[0][4]), plen))
+            return (frames[0][:4] == want, "ws header fields %r != %r" % (frames[0][:4], want))
         if op == "c11.read":
             data = tok_bytes(f[1])
             try:
